@@ -7,7 +7,7 @@ package wal
 import (
 	"context"
 	"fmt"
-	"io"
+	"io/ioutil"
 	"strings"
 	"time"
 
@@ -271,13 +271,10 @@ func (w *WAL) read(ctx context.Context, token string, channels *walChannels) {
 		return
 	}
 	defer r.Close()
-	b := make([]byte, 1024)
-	for {
-		l, e := r.Read(b)
-		if e == io.EOF {
-			b = b[:l]
-			break
-		}
+	b, err := ioutil.ReadAll(r)
+	if err != nil {
+		channels.oops <- fmt.Errorf("token: %s, err: %s", token, err)
+		return
 	}
 	entry, err := model.UnmarshalWAL(b)
 	if err != nil {
